@@ -91,7 +91,9 @@ func repB(b []byte, n int) []byte { return bytes.Repeat(b, n) }
 var c08Families = func() []c08Family {
 	hostileAfter := func(name string, code ...byte) c08Family {
 		return c08Family{name: "cbe-hostile-" + name, format: "cbe", hostile: true, build: func(n int, h []byte) []byte {
-			return cbeDoc(code, h, []byte{1, 2, 3})
+			// n bytes of real payload follow the hostile length (a reader that trusts the declared
+			// length only after it has seen some data must be caught too)
+			return cbeDoc(code, h, bytes.Repeat([]byte{'a'}, n))
 		}}
 	}
 	fams := []c08Family{
@@ -103,7 +105,7 @@ var c08Families = func() []c08Family {
 		hostileAfter("negint-length", 0x67), hostileAfter("second-chunk", 0x90, 0x03, 'a'), hostileAfter("list-then-string", 0x9a, 0x90),
 		hostileAfter("map-key-string", 0x99, 0x90),
 		{name: "cbe-hostile-version", format: "cbe", hostile: true, build: func(n int, h []byte) []byte {
-			return append(append([]byte{0x81}, h...), 1, 2, 3)
+			return append(append([]byte{0x81}, h...), bytes.Repeat([]byte{1}, n)...)
 		}},
 		// --- CBE, linear families
 		{name: "cbe-nested-lists", format: "cbe", timing: true, maxN: 1 << 20, build: func(n int, _ []byte) []byte {
@@ -368,7 +370,7 @@ func genC08(t *rapid.T, ctx *Ctx) interface{} {
 		Pipeline: rapid.SampledFrom([]string{"decode", "unmarshal"}).Draw(t, "pipeline")}
 	if f.hostile {
 		c.Hostile = rapid.IntRange(0, len(gen.HostileULEB)-1).Draw(t, "hostile")
-		c.N = 1
+		c.N = rapid.SampledFrom([]int{0, 1, 3, 16, 100, 126, 127, 128, 129, 200, 255, 256, 300, 600, 1000, 5000}).Draw(t, "payload")
 	} else {
 		hi := 4096
 		if ctx.Thorough() {
@@ -457,6 +459,7 @@ func init() {
 			ctx.Label("pipeline:" + c.Pipeline)
 			ctx.Label(fmt.Sprintf("max-array:%d", c.MaxArray))
 			ctx.LabelIf(f.hostile, "hostile-length")
+			ctx.LabelIf(f.hostile && c.N >= 127, "hostile-length with >= 127 payload bytes")
 			ctx.NonTrivial(f.hostile || c.N >= 1000)
 			alloc, timedOut := c08Alloc(f.format, c.Pipeline, doc, cfg)
 			if timedOut {
